@@ -107,6 +107,9 @@ Inductive frame :=
 Definition ev := (Z * Z * Z)%type.       (* (tag, argument, clock stamp) *)
 Definition t_b := 1. Definition t_e := 2. Definition t_x := 3. Definition t_u := 4. Definition t_s := 5. Definition t_w := 6.
 Definition t_tw := 7. Definition t_rt := 8. Definition t_c := 9. Definition t_wk := 10. Definition t_bs := 11.
+Definition t_ee := 12. Definition t_wc := 13. Definition t_sf := 14. Definition t_bf := 15.
+(* argument encodings: s/sf k*64+set; bs/bf (base*64+set)*64+n; wc set; w/tw r*64+set; rt e*64+set; c set; b/e/ee task id; x/u exception id *)
+Definition enc (a : Z) (T : nat) : Z := a * 64 + Z.of_nat T.
 
 Record thread := TH { stk : list frame; res : list ev (* newest first *); tpool : bool (* isPoolRecursive *); dep0 : Z }.
 Record state := ST { sh : shared; threads : list thread }.
@@ -211,15 +214,16 @@ Definition dispatch (s : shared) (o : op) (c : Z) : shared * list frame * list e
       let k := nextid s in
       let s' := sh_nextid s (k + 1) in
       let cf := cfg s T in
-      if force then (s', [FPkgInc T k b (if concurrent cf && heavy cf then 2 else 1); FRet t_s k], [])
-      else if concurrent cf then (s', [FCsOut T k b skip (heavy cf); FRet t_s k], [])
-      else (s', [FTsCanc T k b; FRet t_s k], [])
+      if force then (s', [FPkgInc T k b (if concurrent cf && heavy cf then 2 else 1); FRet t_sf (enc k T)], [])
+      else if concurrent cf then (s', [FCsOut T k b skip (heavy cf); FRet t_s (enc k T)], [])
+      else (s', [FTsCanc T k b; FRet t_s (enc k T)], [])
   | OBulk T force n b =>
       let base := nextid s in
       let s' := sh_nextid s (base + Z.of_nat n) in
-      match n with O => (s', [FRet t_bs base], []) | _ => (s', [FBulkStart T force base n b; FRet t_bs base], []) end
-  | OWait T => (s, [if concurrent (cfg s T) then FWaitLoad T else FWaitTok T], [])
-  | OTryWait T m => (s, [if concurrent (cfg s T) then FTwLoad T m else FTwTLoad T m], [])
+      let r := FRet (if force then t_bf else t_bs) (enc base T * 64 + Z.of_nat n) in
+      match n with O => (s', [r], []) | _ => (s', [FBulkStart T force base n b; r], []) end
+  | OWait T => (s, [if concurrent (cfg s T) then FWaitLoad T else FWaitTok T], [(t_wc, Z.of_nat T, c)])
+  | OTryWait T m => (s, [if concurrent (cfg s T) then FTwLoad T m else FTwTLoad T m], [(t_wc, Z.of_nat T, c)])
   | OCancel T => (s, [FCancel T; FRet t_c (Z.of_nat T)], [])
   | OWorker => (s, [FWorker], [])
   | OThrow => let e := nextid s in (sh_nextid s (e + 1), [FThrow e], [(t_x, e, c)])
@@ -241,9 +245,9 @@ Definition step_top (s : shared) (th : thread) (f : frame) (rest : list frame) (
   | FThrow e =>
       match rest with
       | FBody _ :: r | FRet _ _ :: r => ok s (FThrow e :: r)
-      | FRawRun T k g :: r => ok (set_led s k (LDone T)) (FThrow e :: r)
-      | FWrap T k b WRun :: r => ok s (FWrap T k b (WExcCas e) :: r)
-      | FInl T k b WRun :: r => ok s (FInl T k b (WExcCas e) :: r)
+      | FRawRun T k g :: r => okl (set_led s k (LDone T)) (FThrow e :: r) [(t_ee, k, c)]
+      | FWrap T k b WRun :: r => okl s (FWrap T k b (WExcCas e) :: r) [(t_ee, k, c)]
+      | FInl T k b WRun :: r => okl s (FInl T k b (WExcCas e) :: r) [(t_ee, k, c)]
       | FTop ops :: r => okl s (FTop ops :: r) [(t_u, e, c)]
       | _ => ok s [FAbort]
       end
@@ -366,15 +370,15 @@ Definition step_top (s : shared) (th : thread) (f : frame) (rest : list frame) (
       | Some (t, s') => ok s' (exec_frames t ++ FTwLoad T (m - 1) :: rest)
       | None => ok s (FTwLoad2 T :: rest)
       end
-  | FTwLoad2 T => if outst (sets s T) =? 0 then ok s (FTestGuard T true :: rest) else okl s rest [(t_tw, 0, c)]
+  | FTwLoad2 T => if outst (sets s T) =? 0 then ok s (FTestGuard T true :: rest) else okl s rest [(t_tw, enc 0 T, c)]
   (* ---- testAndResetException *)
   | FTestGuard T tw => if guard (sets s T) =? 2 then ok s (FTestMove T tw :: rest) else ok s (FTestCanc T tw :: rest)
   | FTestMove T tw => let t := sets s T in ok (sh_set s T (ts_slot t 0 0)) (FTestReset T tw (exn t) (tick t) :: rest)
   | FTestReset T tw e tk =>
-      okl (sh_deliv (sh_set s T (ts_guard (sets s T) 0)) ((T, tk) :: delivered s)) (FThrow e :: rest) [(t_rt, e, c)]
+      okl (sh_deliv (sh_set s T (ts_guard (sets s T) 0)) ((T, tk) :: delivered s)) (FThrow e :: rest) [(t_rt, enc e T, c)]
   | FTestCanc T tw =>
       let r := canc (sets s T) in
-      okl s rest [(if tw then t_tw else t_w, if tw then b2z (negb r) else b2z r, c)]
+      okl s rest [(if tw then t_tw else t_w, enc (if tw then b2z (negb r) else b2z r) T, c)]
   (* ---- cancel *)
   | FCancel T => ok (sh_set s T (ts_cancel (sets s T) c)) (FCancelKids (kids (cfg s T)) :: rest)
   | FCancelKids [] => ok s rest
@@ -382,7 +386,7 @@ Definition step_top (s : shared) (th : thread) (f : frame) (rest : list frame) (
   (* ---- worker *)
   | FWorker =>
       match deq_any s with
-      | Some (t, s') => okl s' (exec_frames t ++ rest) [(t_wk, 1, c)]
+      | Some (t, s') => ok s' (exec_frames t ++ FRet t_wk 1 :: rest)
       | None => okl s rest [(t_wk, 0, c)]
       end
   end.
